@@ -115,7 +115,7 @@ func swapCase(s string, mode int) string {
 func genOrigin(t *rapid.T, spec CORSSpec) (string, bool, string) {
 	var bases []string
 	for _, d := range spec.Domains {
-		if d != ".*" {
+		if d != ".*" && len(d) > 2 {
 			bases = append(bases, d)
 		}
 	}
@@ -164,6 +164,11 @@ func genCORSCase(t *rapid.T, preflightHeavy bool) CORSCase {
 	c := CORSCase{Router: rapid.SampledFrom([]string{model.Curly, model.JSR311}).Draw(t, "router")}
 	nd := rapid.SampledFrom([]int{0, 1, 1, 2, 2, 3, 4}).Draw(t, "ndomains")
 	for i := 0; i < nd; i++ {
+		if rapid.IntRange(0, 11).Draw(t, "blankdomain") == 0 {
+			// a blank entry, e.g. from strings.Split(os.Getenv("UNSET"), ","): it restricts, and matches nothing
+			c.Spec.Domains = append(c.Spec.Domains, rapid.SampledFrom([]string{"", " "}).Draw(t, "blank"))
+			continue
+		}
 		c.Spec.Domains = append(c.Spec.Domains, rapid.SampledFrom(originPool).Draw(t, "domain"))
 	}
 	if nd > 0 && rapid.IntRange(0, 9).Draw(t, "wildcard") == 0 {
